@@ -55,6 +55,11 @@ theorem wSolveT_eq_solveT (W : Wrapped σ V) (o : Opts) (t : Int) (w : World σ)
   by_cases h0 : o.minIter > o.maxIter
   · simp [h0, ofResult]
   simp only [h0, if_false]
+  have hfe : ¬ (normT W.ncols t - ((toInterp W).lags : Int) < 0 ∨ normT W.ncols t + ((toInterp W).leads : Int) ≥ W.ncols) := by
+    have a : (toInterp W).lags = W.lags := rfl
+    have b : (toInterp W).leads = W.leads := rfl
+    rw [a, b]; omega
+  simp only [hfe, if_false]
   obtain ⟨ec, hec⟩ : ∃ ec, errorOption o.errors = some ec := by
     cases he : o.errors <;> simp [errorOption] <;> exact absurd he herr
   simp only [hec]
